@@ -88,6 +88,15 @@ func FormatNumber(num int64) string {
 	return fmt.Sprintf("%d", num)
 }
 
+// openBracket returns the opening bracket of a list or map whose first element prints as first.
+// A negative number must not follow the bracket directly: the lexer reads "[-" as a temporal operator.
+func openBracket(first string) string {
+	if strings.HasPrefix(first, "-") {
+		return "[ "
+	}
+	return "["
+}
+
 // FormatFloat64 turns a float64 constant into a string.
 func FormatFloat64(floatNum float64) string {
 	s := strconv.FormatFloat(floatNum, 'f', -1, 64)
@@ -597,7 +606,7 @@ func (c Constant) String() string {
 			return "[]"
 		}
 		var s strings.Builder
-		s.WriteRune('[')
+		s.WriteString(openBracket((*c.fst).String()))
 		s.WriteString((*c.fst).String())
 		c = *c.snd
 		for !c.IsListNil() {
@@ -612,7 +621,7 @@ func (c Constant) String() string {
 			return "fn:map()"
 		}
 		var s strings.Builder
-		s.WriteRune('[')
+		s.WriteString(openBracket((*c.fst.fst).String()))
 		s.WriteString((*c.fst.fst).String())
 		s.WriteString(" : ")
 		s.WriteString((*c.fst.snd).String())
